@@ -702,6 +702,62 @@ def gen_project(seed, idx, family=None):
         ln("begin")
         ln("end architecture ", e(UA), ";")
 
+    # ------------------------------------------------------------------ generic package, instance, uses through it
+    GP = P.ent("gpk", "package")
+    g_t = P.ent("gt", "generic")
+    g_c = P.ent("gdc", "constant")            # deferred constant of the generic package
+    g_f = P.ent("gfn", "function")
+    g_fp = P.ent("gx", "parameter")
+    g_p = P.ent("gproc", "procedure")
+    g_po = P.ent("go", "parameter")
+    g_pv = P.ent("gv", "parameter")
+    PI = P.ent("pinst", "package")
+    GI = P.ent("gi", "package_instance")
+    GU = P.ent("gusr", "entity")
+    GUA = P.ent("gua", "architecture")
+    g_k = P.ent("gk", "constant")
+    g_s = P.ent("gsig", "signal")
+    if R.random() < 0.45:
+        ir = "pkg_instance_ref"
+        P.file("gen_pk.vhd", L1)
+        ln("package ", d(GP), " is")
+        ln("  generic (", d(g_t), " : integer := 1);")
+        ln("  constant ", d(g_c), " : integer;")
+        ln("  function ", d(g_f), " (", d(g_fp), " : integer) return integer;")
+        ln("  procedure ", d(g_p), " (signal ", d(g_po), " : out bit; ", d(g_pv), " : in integer);")
+        ln("end package ", e(GP), ";")
+        if R.random() < 0.7:
+            P.file("gen_pk_body.vhd", L1)
+        ln("package body ", r(GP), " is")
+        ln("  constant ", d(g_c), " : integer := ", r(g_t), " + 1;")
+        ln("  function ", d(g_f), " (", d(g_fp), " : integer) return integer is")
+        ln("  begin")
+        ln("    return ", r(g_fp), " + ", r(g_c), ";")
+        ln("  end function ", e(g_f), ";")
+        ln("  procedure ", d(g_p), " (signal ", d(g_po), " : out bit; ", d(g_pv), " : in integer) is")
+        ln("  begin")
+        ln("    if ", r(g_f), "(", r(g_pv), ") > 0 then ", r(g_po), " <= '1'; else ", r(g_po), " <= '0'; end if;")
+        ln("  end procedure ", e(g_p), ";")
+        ln("end package body ", e(GP), ";")
+        for pe in (g_fp, g_po, g_pv):
+            split_decl_body_param(P, pe)
+        P.file("gen_inst.vhd", L1)
+        ln("package ", d(PI), " is")
+        ln("  package ", d(GI), " is new work.", r(GP), " generic map (", r(g_t), " => 3);")
+        ln("end package ", e(PI), ";")
+        if R.random() < 0.6:
+            P.file("gen_user.vhd", L1)
+        ln("use work.", r(PI), ".all;")
+        ln("entity ", d(GU), " is")
+        ln("end entity ", e(GU), ";")
+        ln("architecture ", d(GUA), " of ", r(GU), " is")
+        ln("  constant ", d(g_k), " : integer := ", r(GI), ".", r(g_c, ir), " + ", r(GI), ".", r(g_f, ir), "(1) + work.", r(PI), ".",
+           r(GI), ".", r(g_f, ir), "(2);")
+        ln("  signal ", d(g_s), " : bit;")
+        ln("begin")
+        ln("  ", r(GI), ".", r(g_p, ir), "(", r(g_s), ", ", r(g_k), ");")
+        ln("end architecture ", e(GUA), ";")
+
     texts = P.render()
     # drop entities that were never written
     ents = [x for x in P.ents if x.occs and all(o.file is not None for o in x.occs)]
